@@ -120,6 +120,8 @@ def wrap_options(sim, hist, which, plan, nfc, extra, actions=None):
             r = p["connect"][min(p["n_connect"], len(p["connect"]) - 1)]
             p["n_connect"] += 1
             hist.add("connect", opt, x, r)
+            if p.get("delay"):
+                kernel.TIME.sleep(p["delay"])       # a callback that takes its time: terminate() may turn true meanwhile
             if actions and opt in actions:
                 actions[opt](x)
             return r
@@ -318,7 +320,8 @@ def gen_plan(sim, which):
         conn = [sim.wpick("connect.%s.%d" % (opt, i), [(5, True), (1, 1), (1, "yes"), (2, False), (1, None), (1, 0), (1, "")])
                 for i in range(3)]
         rel = sim.wpick("release." + opt, [(6, "default"), (1, True), (1, "done"), (1, False), (1, None)])
-        plan[opt] = {"startup": st, "discover": disc, "connect": conn, "release": rel, "n_discover": 0, "n_connect": 0}
+        plan[opt] = {"startup": st, "discover": disc, "connect": conn, "release": rel, "n_discover": 0, "n_connect": 0,
+                     "delay": sim.wpick("cb.delay." + opt, [(4, 0), (1, 0.05), (1, 0.4), (1, 1.0)])}
         if disc is not None:
             plan[opt]["on-discover-overridden"] = True
     return plan
@@ -371,7 +374,13 @@ def run_tags(sim, params):
     if fault == "closed":
         # often shortly before terminate() turns true: the presence loop then ends by terminate with the device gone
         close_at = sim.pick("close.at", [0.05, 0.35, 1.5, max(0.0, T_rel - 0.004), max(0.0, T_rel - 0.02), max(0.0, T_rel - 0.1)])
-    desc = {"h": "tags", "tag": typ, "presence": presence, "T_term": T_rel, "options": which, "extra": extra,
+    card_reader = None
+    if which == ["card"] and fault is None and sim.chance("card.reader", 0.6):
+        card_reader = {"arrives": sim.pick("cr.arrives", [0.0, 0.2]), "ncmd": sim.pick("cr.ncmd", [0, 1, 3]),
+                       "quiet": sim.pick("cr.quiet", [0.3, 3.0])}
+    if card_reader is not None and 0 < T_rel <= 1.6 and sim.chance("cr.slow_callback", 0.6):
+        plan["card"]["delay"] = T_rel + 0.2       # terminate() turns true while the card's on-connect is still running
+    desc = {"h": "tags", "tag": typ, "presence": presence, "T_term": T_rel, "options": which, "extra": extra, "card_reader": card_reader,
             "plan": plan_desc(plan), "devfault": (fault, fault_at)}
     hist = History(k)
     out = {}
@@ -389,6 +398,28 @@ def run_tags(sim, params):
             d.unsupported.add("A")
         elif fault == "unsupported_listen":
             d.unsupported.add("listen")
+        if card_reader is not None:
+            # a scripted reader in front of the emulated card: activates it with a first command, sends a few more, then
+            # stays quiet for a while and leaves the field
+            script = {"left": card_reader["ncmd"]}
+
+            def listener(kind, target, timeout):
+                k.time.sleep(min(timeout, 0.02))
+                if kind != "ttf" or k.now() < state.get("t_start", 0) + card_reader["arrives"]:
+                    k.time.sleep(max(0.0, timeout - 0.02))
+                    return None
+                sim.probe("card.reader_activates")
+                return nfc.clf.LocalTarget("212F", sensf_res=target.sensf_res, sensf_req=bytearray.fromhex("00FFFF0000"),
+                                           tt3_cmd=bytearray.fromhex("1002FE010203040506010B00018000"))
+
+            def responder(data, timeout):
+                if script["left"] > 0:
+                    script["left"] -= 1
+                    k.time.sleep(0.01)
+                    return bytearray.fromhex("1006" "02FE010203040506" "010B00018000")
+                k.time.sleep(card_reader["quiet"] if timeout is None else min(timeout, card_reader["quiet"]))
+                raise nfc.clf.BrokenLinkError("sim: the reader left")
+            d.listener, d.responder = listener, responder
         state["dev"] = d
         return d
 
@@ -437,6 +468,10 @@ def run_tags(sim, params):
            "discovery": discovery, "fatal": list(fatal), "fatal_certain": False}
     if single_unsupported:
         ctx["fatal"].append((0, "single unsupported target"))
+    if card_reader is not None:
+        # the emulation loop waits for the reader's next command without a time limit: what the reader takes to send
+        # it (or to leave) is the environment's time, not connect()'s
+        ctx["bound"] += card_reader["quiet"] + 0.05 * card_reader["ncmd"] + 0.1
     if fault in ("unsupported_listen", "unsupported_A"):
         ctx["fatal"].append((0, fault))
     if state.get("t_closed") is not None and state["t_closed"] <= state["t_ret"]:
@@ -444,6 +479,20 @@ def run_tags(sim, params):
     ctx["fatal_certain"] = bool(fatal)
     kind, ret = out["outcome"]
     vs = judge_connect(hist, which, plan, out["outcome"], ctx, desc)
+    if card_reader is not None:
+        # terminate() already true when the card's on-connect returns: the activation is only released, the emulated
+        # tag does not answer the reader any more
+        conn = [e for e in hist.ev if e[1] == "connect" and e[2] == "card" and bool(e[4])]
+        if conn:
+            t_cb_end = conn[-1][0] + (plan["card"].get("delay") or 0)
+            if state["T_term"] <= t_cb_end and (plan["card"].get("delay") or 0) > 0:
+                sim.probe("card.terminate_true_when_connect_returns")
+                late = [c for c in dev.calls if c[1] == "send_rsp_recv_cmd" and dev.t0 + c[0] >= t_cb_end - 1e-5]      # (call times are rounded to the microsecond)
+                if late:
+                    vs.append(Violation("terminate", "card-exchange-after-terminate", "terminate() was already true when the card's "
+                                        "on-connect returned (t=%.3f) but the emulated tag went on exchanging data with the "
+                                        "reader (%d driver calls, first at t=%.3f); history=%s; %r"
+                                        % (t_cb_end - state["t_start"], len(late), dev.t0 + late[0][0] - state["t_start"], short(hist), desc)))
     if subset_of and "rdwr" in kept and "llcp" not in kept and tg and isinstance(tg[0], str) and tg[0][-1] in "ABF":
         # (the llcp option polls for peers with the same driver functions)
         # on-startup returned a new, shorter target list: only what it returned may be polled for
